@@ -19,7 +19,7 @@ def gen_cases(chk):
     cases = []
     vals = lambda: [rng.choice(B.B64) for _ in range(4)]  # noqa: E731
     # 1. callee clobbers r6-r9; caller folds them after the return  (forward and backward displacement)
-    for _ in range(12 if thorough else 4):
+    for _ in range(120 if thorough else 4):
         v = vals()
         pre = b''.join(B.load_const(6 + k, v[k]) for k in range(4))
         callee = b''.join(B.load_const(6 + k, rng.next()) for k in range(4)) + B.mov(0, 5) + B.EXIT
@@ -32,7 +32,7 @@ def gen_cases(chk):
         n_pre = len(pre) // 8
         cases.append(Case(B.ja(n_callee) + callee + pre + B.callx(-(n_callee + n_pre + 1)) + post, fam='callee-saved:back'))
     # 2. r0-r5 pass through call and return
-    for _ in range(6 if thorough else 2):
+    for _ in range(60 if thorough else 2):
         a = [rng.choice(B.B64) for _ in range(5)]
         pre = b''.join(B.load_const(1 + k, a[k]) for k in range(5))
         callee = B.movr(0, 1) + B.alu('xor', 0, src=2) + B.alu('add', 0, src=3) + B.alu('xor', 0, src=4) + B.alu('add', 0, src=5) + \
